@@ -55,6 +55,27 @@ PROPS = {
     "C20": dict(streams=[("C20", 1.0)], model=[], quick=3000, thorough=60000),
 }
 
+def _exh(alpha, maxlen):
+    t, p = 0, 1
+    for _ in range(maxlen + 1):
+        t += p * 3
+        p *= alpha
+    return t
+
+# thorough tier only: exhaustive small-scope streams (support, never presented as proof):
+# every class sequence up to the given length x {auto, LTR, RTL}, representatives rotating
+EXH = {
+    "XFULL": _exh(23, 3),   # all 23 classes, length <= 3
+    "XRED": _exh(12, 5),    # L R AL EN ES ET AN CS NSM BN ON WS, length <= 5
+    "XCTRL": _exh(10, 5),   # L R EN ON LRE RLE PDF LRI RLI PDI, length <= 5
+    "XLINE": _exh(23, 3),   # as XFULL, with a line on character boundaries
+}
+EXH_FOR = {
+    "C01": ["XFULL", "XRED", "XCTRL"], "C02": ["XFULL", "XCTRL"], "C08": ["XFULL", "XRED", "XLINE"], "C11": ["XCTRL"],
+    "C07": ["XFULL", "XLINE"], "C17": ["XFULL", "XLINE"], "C03": ["XLINE"], "C05": ["XLINE"], "C06": ["XLINE"],
+    "C13": ["XCTRL"], "C09": ["XRED"], "C10": ["XCTRL"], "C12": ["XRED"],
+}
+
 FEATURE_SETS = [
     ("default", []),
     ("smallvec", ["--features", "smallvec"]),
@@ -151,6 +172,12 @@ def lean_obligations(prop, log):
                 bad = [a for a in axioms[n] if a not in ALLOWED_AXIOMS]
                 if bad:
                     broken.append("theorem %s depends on %s" % (n, ",".join(bad)))
+    if build_ok and os.environ.get("VERIF_TIER_INTERNAL") == "thorough":
+        t0 = time.time()
+        rc, out = sh(["lake", "env", "leanchecker", "UBidi.Props." + prop], cwd=LEAN, timeout=3000)
+        log.append("leanchecker UBidi.Props.%s: rc=%d %.1fs" % (prop, rc, time.time() - t0))
+        if rc != 0:
+            broken.append("leanchecker rejected UBidi.Props.%s: %s" % (prop, out.strip()[-300:]))
     obligations = len(names) + 3  # theorems + translator + build + hygiene scan
     discharged = obligations - len(broken) if not broken else max(0, obligations - len(broken))
     return names, axioms, obligations, discharged, broken
@@ -270,6 +297,7 @@ def main():
         else:
             i += 1
     seed = int(os.environ.get("VERIF_SEED", "1"))
+    os.environ["VERIF_TIER_INTERNAL"] = tier
     cfg = PROPS[prop]
     t_start = time.time()
     log = []
@@ -288,6 +316,7 @@ def main():
     relevant_model = set(cfg["model"])
 
     results = []
+    exhaustive_streams = []
     harness_problems = []
     digests = {}
     feature_sets = FEATURE_SETS if prop == "C20" else FEATURE_SETS[:1]
@@ -315,6 +344,16 @@ def main():
                 for k, (first, c) in enumerate(shards):
                     procs.append((tag, sname) + run_pipeline(hb, gen_args=[sname, tier, seed, c, first],
                                                            out_prefix="%s-%s-%s-%d" % (prop, tag.replace("+", "_"), sname, k)))
+            if tier == "thorough" and tag == "default":
+                for sname in EXH_FOR.get(prop, []):
+                    cnt = EXH[sname]
+                    per = (cnt + njobs - 1) // njobs
+                    for k in range(njobs):
+                        c = min(per, cnt - k * per)
+                        if c > 0:
+                            procs.append((tag, sname) + run_pipeline(hb, gen_args=[sname, tier, seed, c, k * per],
+                                                                   out_prefix="%s-%s-%s-%d" % (prop, tag.replace("+", "_"), sname, k)))
+                    exhaustive_streams.append("%s (%d cases)" % (sname, cnt))
         for tag_, sname, lines, verd, p in procs:
             rc = p.wait()
             rs, nl, nv = parse_verdicts(lines, verd)
@@ -453,6 +492,7 @@ def main():
             "spec_failures": len(spec_fail),
             "panics_seen": sum(1 for r in results if "PANIC" in r["line"]),
             "exhaustive": bool(cfg.get("exhaustive")),
+            "exhaustive_small_scope_streams": exhaustive_streams,
             "feature_sets": [t for t, _ in feature_sets],
             "digests": {k: v.hexdigest() for k, v in digests.items()},
             "log": log,
